@@ -763,3 +763,104 @@ def run_nested(case):
     res.nontrivial = len(expected) > len(pre) or bool(case.get('fault'))
     res.sample = {'log': [list(x) for x in log]}
     return res
+
+
+# --------------------------------------------------------------------------
+# postponed callbacks of components nobody else refers to any more
+# --------------------------------------------------------------------------
+
+def gen_unref(rng):
+    return {'scenario': 'unreferenced',
+            'comps': [{'attach_disabled': rng.random() < 0.6,
+                       'how': rng.choice(['remove', 'delete_imm', 'replace',
+                                          'delete_def', 'clear_entity'])}
+                      for _ in range(rng.randint(1, 4))],
+            'collect': rng.random() < 0.8}
+
+
+def run_unref(case):
+    """Components created inline (the program keeps no reference), attached
+    and/or detached while dispatching is disabled: the callbacks they are
+    owed are "postponed rather than lost" - the world has to keep what it
+    needs to deliver them."""
+    import gc
+    desper = import_desper()
+    res = Res()
+    w = desper.World()
+    log = []
+
+    def on_add(self, entity, world):
+        log.append((self.uid, 'add', entity, world is w))
+
+    def on_remove(self, entity, world):
+        log.append((self.uid, 'remove', entity, world is w))
+
+    Comp = desper.event_handler('on_add', 'on_remove')(
+        type('Comp', (), {'on_add': on_add, 'on_remove': on_remove}))
+
+    def make(uid):
+        c = Comp()
+        c.uid = uid
+        return c
+
+    ents = {}
+    expected = {}
+    for k, spec in enumerate(case['comps']):
+        if not spec['attach_disabled']:
+            ents[k] = w.create_entity(make(k))
+    early = list(log)
+    del log[:]
+    w.dispatch_enabled = False
+    for k, spec in enumerate(case['comps']):
+        expected[k] = ['remove'] if k in ents else ['add', 'remove']
+        if k not in ents:
+            ents[k] = w.create_entity(make(k))
+    for k, spec in enumerate(case['comps']):
+        e = ents[k]
+        if spec['how'] == 'remove':
+            w.remove_component(e, Comp)
+        elif spec['how'] == 'delete_imm':
+            w.delete_entity(e, immediate=True)
+        elif spec['how'] == 'replace':
+            w.add_component(e, make(('new', k)))
+            expected[('new', k)] = ['add']
+        elif spec['how'] == 'clear_entity':
+            for c in w.get_components(e):
+                w.remove_component(e, type(c))
+            del c
+        else:
+            w.delete_entity(e)
+            w.process()
+    if log:
+        res.div(0, 'callback-while-disabled', 'a lifecycle callback ran while '
+                'dispatching was disabled', [], [list(x[:2]) for x in log])
+        return res
+    if case['collect']:
+        gc.collect()
+    try:
+        w.dispatch_enabled = True
+    except Exception as ex:
+        res.div(1, 'unreferenced-release-raised', 'the enabling assignment '
+                'raised', 'no exception', repr(ex))
+        return res
+    res.stats['unreferenced_batches'] += 1
+    res.stats['callback_sequences_checked'] += len(expected)
+    res.tags['unreferenced_how'].update(s['how'] for s in case['comps'])
+    for uid, want in expected.items():
+        got = [kind for u, kind, _, _ in log if u == uid]
+        if got != want:
+            res.div(1, 'unreferenced-callbacks-lost', f'component {uid!r} '
+                    '(created inline, no reference kept by the program) was '
+                    'attached and/or detached while dispatching was '
+                    'disabled: the callbacks it is owed are postponed, not '
+                    'lost', want, got)
+            return res
+    for u, kind, entity, same_world in log:
+        k = u[1] if isinstance(u, tuple) else u
+        if entity != ents[k] or not same_world:
+            res.div(1, 'unreferenced-owner', f'component {u!r}: callback '
+                    'with another owner or world', ents[k], entity)
+            return res
+    res.nontrivial = True
+    res.sample = {'log': [list(x[:2]) for x in log], 'early': len(early)}
+    return res
